@@ -9,14 +9,14 @@ import (
 	"github.com/fatedier/frp/zzverif"
 )
 
-// stub for strconv.ParseFloat (floating-point parsing is not encoded): whole numbers are parsed
-// exactly; for a literal with a fraction the value is some number between its integer part and the
-// next (the engine's floats are integer-valued: the fraction itself is outside)
+// stub for strconv.ParseFloat (floating-point parsing is not encoded): the literals of the harness
+// are concrete, so the value is computed from the digits with concrete float arithmetic (a decimal
+// fraction of at most two digits of the literals used here is exact or correctly rounded by one division)
 func c18bStubParseFloat(s string, bitSize int) (float64, error) {
 	if s == "" {
 		return 0, errors.New("invalid syntax")
 	}
-	n, frac, seenDot := 0, false, false
+	n, fn, fd, seenDot := 0, 0, 1, false
 	for i := 0; i < len(s); i++ {
 		c := s[i]
 		switch {
@@ -24,7 +24,7 @@ func c18bStubParseFloat(s string, bitSize int) (float64, error) {
 			if !seenDot {
 				n = n*10 + int(c-'0')
 			} else {
-				frac = true
+				fn, fd = fn*10+int(c-'0'), fd*10
 			}
 		case c == '.' && !seenDot:
 			seenDot = true
@@ -32,8 +32,8 @@ func c18bStubParseFloat(s string, bitSize int) (float64, error) {
 			return 0, errors.New("invalid syntax")
 		}
 	}
-	if frac {
-		return float64(n + zzverif.Choice("fractionRoundsUp", 2)), nil
+	if fn != 0 {
+		return float64(n*fd+fn) / float64(fd), nil
 	}
 	return float64(n), nil
 }
@@ -67,6 +67,12 @@ func VerifC18Bandwidth() {
 		zzverif.Assert(q.Bytes() == 2*MB, "C18.bandwidth.whole-number-of-units")
 	case "0KB", "":
 		zzverif.Assert(q.Bytes() == 0, "C18.bandwidth.zero")
+	case "1.5MB":
+		zzverif.Assert(q.Bytes() == MB+MB/2, "C18.bandwidth.fraction-of-a-unit-counts")
+	case "0.5MB":
+		zzverif.Assert(q.Bytes() == MB/2, "C18.bandwidth.fraction-of-a-unit-counts")
+	case "3.25KB":
+		zzverif.Assert(q.Bytes() == 3*KB+KB/4, "C18.bandwidth.fraction-of-a-unit-counts")
 	}
 	if strings.Contains(trim, ".") {
 		zzverif.Reach("C18.bandwidth.fraction")
